@@ -3,6 +3,7 @@ use std::ops::Range;
 
 pub mod block_indent_remover;
 pub mod empty_line_remover;
+pub mod first_line_indent_remover;
 pub mod indent_remover;
 pub mod next_line_break_remover;
 pub mod prev_line_break_remover;
